@@ -143,6 +143,10 @@ def parse_embedded_scalar(scalar, version=LATEST_VER):
 
     # Is it a xstr?
     if scalar.startswith('x:'):
+        # We support this only in version 3.0 and up.
+        if Version.nearest(version) < VER_3_0:
+            raise ValueError('XStr is not supported in Haystack version %s' \
+                             % version)
         return XStr(*scalar[2:].split(':'))
 
     # Is it a reference?
